@@ -362,7 +362,8 @@ type resAd struct {
 	add    func(v uint64)
 	remove func()
 	get    func() (uint64, bool)
-	has    func() bool
+	has    func() bool // Resource[T].Has
+	hasID  func() bool // Resources.Has (ID-based)
 }
 
 type (
@@ -374,17 +375,43 @@ type (
 
 func mkRes[T any](w *ecs.World, put func(*T, uint64), get func(*T) uint64) resAd {
 	r := ecs.NewResource[T](w)
+	calls := 0
 	return resAd{
-		add:    func(v uint64) { var x T; put(&x, v); r.Add(&x) },
-		remove: func() { r.Remove() },
+		add: func(v uint64) {
+			var x T
+			put(&x, v)
+			calls++
+			switch calls % 3 {
+			case 0:
+				r.Add(&x) // Resource[T]
+			case 1:
+				ecs.AddResource(w, &x) // generic function
+			default:
+				w.Resources().Add(ecs.ResourceID[T](w), &x) // ID-based
+			}
+		},
+		remove: func() {
+			calls++
+			if calls%2 == 0 {
+				r.Remove()
+			} else {
+				w.Resources().Remove(ecs.ResourceID[T](w))
+			}
+		},
 		get: func() (uint64, bool) {
 			p := r.Get()
+			g := ecs.GetResource[T](w)
+			raw := w.Resources().Get(ecs.ResourceID[T](w))
+			if (p == nil) != (g == nil) || (p == nil) != (raw == nil) || (p != nil && (p != g || raw.(*T) != p)) {
+				return 0xBAD0BAD0, p != nil
+			}
 			if p == nil {
 				return 0, false
 			}
 			return get(p), true
 		},
-		has: func() bool { return r.Has() },
+		has:   func() bool { return r.Has() },
+		hasID: func() bool { return w.Resources().Has(ecs.ResourceID[T](w)) },
 	}
 }
 
@@ -451,7 +478,7 @@ func (s *Sim) opResource(op *Op) {
 		rr := s.res(j)
 		want, ok := s.M.Res[j]
 		got, gok := rr.get()
-		if rr.has() != ok || gok != ok || (ok && got != want) {
+		if rr.has() != ok || rr.hasID() != ok || gok != ok || (ok && got != want) {
 			s.violate("C18", "res.map", "state", false, "resource %d: Has=%v Get=(%#x,%v), expected present=%v value=%#x", j, rr.has(), got, gok, ok, want)
 			return
 		}
